@@ -200,6 +200,9 @@ def check(ck: Checker) -> None:
     from .transfer_common import check_claimed_attempted
 
     check_claimed_attempted(ck, m, "C11.absent-is-failed")
+    from . import round7 as _r7
+
+    _r7.on_error_names_oid(ck, "C11.onerror")
     from . import round4 as _r4
 
     _r4.index_memo_reset(ck, "C11.new")
@@ -244,6 +247,16 @@ def _verify_reported(ck: Checker, rule: str) -> None:
     checks = [n for n in g.nodes.values() if n.id in after for c in calls_at(n) if is_method_call(c, "check") and norm(c.func.value) == "self"]
     ck.floor(rule, len(checks), 1, "post-copy integrity checks in HashFileDB.add")
     reports = {n.id for n in g.nodes.values() for c in calls_at(n) if isinstance(c.func, ast.Name) and c.func.id == "on_error"}
+    # sets of oids that were *already reported* through on_error: filled by a local wrapper that always forwards
+    already = set()
+    for child in add.children.values():
+        gc_ = ck.cfg(child)
+        fw = {x.id for x in gc_.nodes.values() for c2 in calls_at(x) if isinstance(c2.func, ast.Name) and c2.func.id == "on_error"}
+        if not fw or gc_.exit in gc_.reach([gc_.entry], skip_node=lambda x: x.id in fw, skip_edge=lambda a, l, b: l == "exc"):
+            continue
+        for x in walk_own(child.node):
+            if isinstance(x, ast.Call) and is_method_call(x, "add") and x.args and isinstance(x.args[0], ast.Name) and child.has_param(x.args[0].id) and isinstance(x.func.value, ast.Name):
+                already.add(x.func.value.id)
     for n in checks:
         hs = [g.nodes[d] for lab, d in n.succ if lab == "exc" and g.nodes[d].kind == "handler"]
         fmt = [h for h in hs if h.ast.type is None or any(t in norm(h.ast.type) for t in ("ObjectFormatError", "Exception", "BaseException"))]
@@ -267,6 +280,10 @@ def _verify_reported(ck: Checker, rule: str) -> None:
                 t = norm(a.ast)
                 if t.startswith("isinstance(") and "FileNotFoundError" in t and "ObjectFormatError" not in t and lab == "T":
                     return True  # the object is simply not there (its copy failed and was reported by the copy itself)
+                e_ = a.ast
+                if isinstance(e_, ast.Compare) and len(e_.ops) == 1 and isinstance(e_.ops[0], (ast.In, ast.NotIn)) and norm(e_.comparators[0]) in already:
+                    # the copy of this very object had failed and was reported then
+                    return (isinstance(e_.ops[0], ast.In) and lab == "T") or (isinstance(e_.ops[0], ast.NotIn) and lab == "F")
                 return (t == "on_error is not None" and lab == "F") or (t == "on_error is None" and lab == "T") or (t == "on_error" and lab == "F")
 
             stops = set(n.loops[-1:]) | {g.exit}
